@@ -74,8 +74,14 @@ func c05Options(root *yamlgen.L) []c05Deco {
 			return
 		}
 		// scalars
-		for _, st := range []string{"single", "double", "literal", "folded"} {
-			if (st == "literal" || st == "folded") && (isKey || inFlow) {
+		for _, st := range []string{"single", "double", "literal", "folded", "literal-leadblank", "literal-gap"} {
+			if strings.HasPrefix(st, "literal") || st == "folded" {
+				if isKey || inFlow {
+					continue
+				}
+			}
+			if st == "literal-leadblank" || st == "literal-gap" {
+				out = append(out, c05Deco{p, "style", st})
 				continue
 			}
 			txt := n.Text
@@ -124,6 +130,13 @@ func c05Apply(root *yamlgen.L, d c05Deco) bool {
 			return false
 		}
 		switch d.Param {
+		case "literal-leadblank":
+			// a literal block whose first line is blank
+			n.Kind, n.Text = val.Str, "\nafter a blank line\n"
+			d.Param = "literal"
+		case "literal-gap":
+			n.Kind, n.Text = val.Str, "para one\n\npara two\n"
+			d.Param = "literal"
 		case "literal":
 			n.Kind, n.Text = val.Str, "line one\nline two\n"
 		case "folded":
@@ -362,6 +375,18 @@ func c05Identity(text string) (string, error, interface{}) {
 
 // c05Check returns (kind, detail); kind "" = holds, "unsure" = the generator's own rendering is not what it thinks.
 func c05Check(cs c05Case) (kind, detail string) {
+	if strings.HasPrefix(cs.Stream, "hand:") {
+		for _, h := range c05Hand {
+			if h.name == strings.TrimPrefix(cs.Stream, "hand:") {
+				in, err := c05Nodes(h.text)
+				if err != nil {
+					return "unsure", "hand-written text is not valid YAML: " + err.Error()
+				}
+				return c05JudgeText(h.text, in, false)
+			}
+		}
+		return "", ""
+	}
 	if strings.HasPrefix(cs.Stream, "fully-decorated:") {
 		return c05Full(fromJSONText(cs.Shape), strings.TrimPrefix(cs.Stream, "fully-decorated:"))
 	}
@@ -384,18 +409,23 @@ func c05Check(cs c05Case) (kind, detail string) {
 			return "unsure", fmt.Sprintf("ground truth %s but the text reads %s", want, got)
 		}
 	}
+	rootScalar := false
+	for _, d := range docs {
+		if d.Alias == "" && d.Kind != val.Seq && d.Kind != val.Map {
+			rootScalar = true
+		}
+	}
+	return c05JudgeText(text, inNodes, rootScalar)
+}
+
+// c05JudgeText: the statement's clauses on one input text that the independent reader has read as inNodes.
+func c05JudgeText(text string, inNodes []*yaml.Node, rootScalar bool) (kind, detail string) {
 	out, yerr, pan := c05Identity(text)
 	if pan != nil {
 		return "panic", fmt.Sprintf("%v on\n%s", pan, text)
 	}
 	if yerr != nil {
 		return "rejected", fmt.Sprintf("yq rejects a valid stream: %v\n%s", yerr, text)
-	}
-	rootScalar := false
-	for _, d := range docs {
-		if d.Alias == "" && d.Kind != val.Seq && d.Kind != val.Map {
-			rootScalar = true
-		}
 	}
 	outNodes, err := c05Nodes(out)
 	if err != nil {
@@ -412,6 +442,12 @@ func c05Check(cs c05Case) (kind, detail string) {
 		c05Attrs(inNodes[i], &a, 0)
 		c05Attrs(outNodes[i], &b, 0)
 		if as, bs := c05Canon(a.String()), c05Canon(b.String()); as != bs {
+			// a block scalar whose first line is blank cannot be written in block style by the emitter (it drops the line); it comes
+			// back double-quoted. If that style is the only difference it is reported under one signature of its own.
+			norm := regexp.MustCompile(`(v="\\n[^"]*(?:\\.[^"]*)*") st=\d+`)
+			if norm.ReplaceAllString(as, "$1 st=*") == norm.ReplaceAllString(bs, "$1 st=*") {
+				return "presentation-leadblank", fmt.Sprintf("document %d: a block scalar whose first line is blank comes back double-quoted\n in: %s\nout: %s\noutput:\n%s--- input:\n%s", i, as, bs, out, text)
+			}
 			return c05Tag("presentation", rootScalar), fmt.Sprintf("document %d attributes differ\n in: %s\nout: %s\noutput:\n%s--- input:\n%s", i, as, bs, out, text)
 		}
 	}
@@ -429,6 +465,27 @@ func c05Check(cs c05Case) (kind, detail string) {
 		return c05Tag("not-idempotent", rootScalar), fmt.Sprintf("second pass differs (%v %v)\nfirst:\n%ssecond:\n%s", err2, pan2, out, out2)
 	}
 	return "", ""
+}
+
+// c05Hand: documents with constructs the layout generator does not produce.
+var c05Hand = []struct{ name, text string }{
+	{"merge-key-single", "base: &b {x: 1}\nderived:\n  <<: *b\n  y: 2\n"},
+	{"merge-key-list", "a: &a {x: 1}\nb: &b {y: 2}\nc:\n  <<: [*a, *b]\n  z: 3\n"},
+	{"literal-keep", "k: |+\n  text\n\nn: 1\n"},
+	{"literal-strip", "k: |-\n  text\nn: 1\n"},
+	{"literal-indented", "k: |2\n   three spaces\n  two\nn: 1\n"},
+	{"folded-paragraphs", "k: >\n  one\n\n  two\nn: 1\n"},
+	{"complex-key", "? [a, b]\n: v\n"},
+	{"anchored-key", "&k key: v\nother: *k\n"},
+	{"tagged-collection", "a: !custom\n  b: 1\nc: !other [1, 2]\n"},
+	{"quoted-keys", "\"a b\": 1\n'c: d': 2\n"},
+	{"null-forms", "a: null\nb: ~\nc:\nd: Null\n"},
+	{"numbers-as-written", "a: 0x1F\nb: 1e3\nc: 1_000\nd: 0o17\ne: +1\nf: 1.50\n"},
+	{"timestamps-and-look-alikes", "a: 2021-01-01\nb: 2021-01-01T00:00:00Z\nc: 1:30\nd: yes\ne: 'yes'\n"},
+	{"document-end-marker", "a: 1\n...\n---\nb: 2\n"},
+	{"empty-collections", "a: []\nb: {}\nc:\n  - []\n  - {}\n"},
+	{"nested-flow", "a: {b: [1, {c: 2}], d: []}\n"},
+	{"seq-in-map-indentation", "a:\n  - 1\n  - b: 2\n    c: 3\n"},
 }
 
 // c05Full: identity on a fully decorated document; judged on the text (every generated comment is unique).
@@ -507,7 +564,7 @@ func c05Run(c *fw.Ctx) error {
 	}
 	maxDeco := 2
 	streams := []string{"", "explicit-start", "lead-comment", "lead-comment-start", "two-docs", "three-docs", "bom-lead-comment", "indented-lead-comment", "huge-lead-comment"}
-	c.Res.Bound = fmt.Sprintf("%d shapes (all of <= %d content nodes over 3 scalars and 2 keys, plus 4 deeper ones) x every set of <= %d decorations (5 scalar styles, %d hazard texts, tags, anchor+alias, head/line/foot comments, flow) x 8 stream forms at <= 1 decoration (explicit start, header comment block with and without a byte order mark or indentation, two and three documents) (plus a 70 KiB header line on every shape); plus the fully decorated documents of C07 (every container shape of <= %d nodes x 3 decoration variants)", len(shapes), n, maxDeco, len(c05Texts), map[bool]int{false: 4, true: 5}[c.Thorough()])
+	c.Res.Bound = fmt.Sprintf("%d shapes (all of <= %d content nodes over 3 scalars and 2 keys, plus 4 deeper ones) x every set of <= %d decorations (5 scalar styles, %d hazard texts, tags, anchor+alias, head/line/foot comments, flow) x 8 stream forms at <= 1 decoration (explicit start, header comment block with and without a byte order mark or indentation, two and three documents) (plus a 70 KiB header line on every shape); plus %d hand-written documents (merge keys, chomping and indentation indicators, complex and anchored keys, tagged collections, number spellings, document end marker); plus the fully decorated documents of C07 (every container shape of <= %d nodes x 3 decoration variants)", len(shapes), n, maxDeco, len(c05Texts), len(c05Hand), map[bool]int{false: 4, true: 5}[c.Thorough()])
 	var idx int64
 	run := func(cs c05Case, order int64) {
 		idx++
@@ -564,6 +621,9 @@ func c05Run(c *fw.Ctx) error {
 		if strings.HasSuffix(kind, "/root=scalar") {
 			sig = kind // one root cause: a root-level scalar is printed unwrapped
 		}
+		if kind == "presentation-leadblank" {
+			sig = "presentation/block-scalar-with-blank-first-line"
+		}
 		c.Violation(sig, order, cs, detail)
 	}
 	// fully decorated documents (the generator of C07: a comment on every key, item and scalar, foot comments stacked behind nested
@@ -577,6 +637,23 @@ func c05Run(c *fw.Ctx) error {
 		if d.K == val.Seq || d.K == val.Map {
 			fullShapes = append(fullShapes, d)
 		}
+	}
+	// hand-written documents with constructs the layout generator does not produce, judged by the same clauses
+	for hi, h := range c05Hand {
+		idx++
+		if !c.Mine(idx) || c.Expired() {
+			continue
+		}
+		kind, detail := c05Check(c05Case{Shape: "null", Stream: "hand:" + h.name})
+		c.Eval(1)
+		c.Validated(1)
+		c.Nontrivial("hand|" + h.name)
+		if kind == "" {
+			c.Outcome("hand|" + h.name)
+			continue
+		}
+		c.Count("mismatch_hand", 1)
+		c.Violation(kind+"/hand/"+h.name, 6e6+int64(hi), c05Case{Shape: "null", Stream: "hand:" + h.name}, detail)
 	}
 	for fi, sh := range fullShapes {
 		for _, deco := range []string{"", "foots", "aliases"} {
